@@ -244,6 +244,108 @@ theorem turn_tcp_stream_roundtrip (P : Prims) (m : Msg) (key : Option Bytes) (fp
   refine ⟨?_, (tcpNext_channelData ch data rest h1 h2 hd).1, (tcpNext_channelData ch data rest h1 h2 hd).2⟩
   rw [e, hst.1]; exact hst.2
 
+/-- a message on the TURN TCP connection: an encoded STUN message or a ChannelData message -/
+inductive Wire where
+  | stun (m : Msg) (key : Option Bytes) (fp : Bool)
+  | chan (ch : Nat) (data : Bytes)
+
+def Wire.bytes (P : Prims) : Wire → Bytes
+  | .stun m key fp => encode P m key fp
+  | .chan ch data => channelData ch data
+
+def Wire.Ok : Wire → Prop
+  | .stun m _ _ => m.Wf ∧ Sized m
+  | .chan ch data => turnRxChannelLo ≤ ch ∧ ch ≤ turnRxChannelHi ∧ data.length < 65536
+
+/-- **turn_tcp_stream_sequence**: ANY sequence of messages written back to back by `send` (STUN as is,
+ChannelData padded) is split by successive `recv` calls into exactly those messages, in order, leaving
+exactly what followed. -/
+theorem turn_tcp_stream_sequence (P : Prims) (ws : List Wire) (rest : Bytes) (hok : ∀ w ∈ ws, w.Ok) :
+    tcpSplitN ws.length ((ws.map (fun w => tcpWire (w.bytes P))).flatten ++ rest) = some (ws.map (Wire.bytes P), rest) := by
+  induction ws with
+  | nil => rfl
+  | cons w ws ih =>
+    have hw := hok w List.mem_cons_self
+    have ih' := ih (fun w' h' => hok w' (List.mem_cons_of_mem _ h'))
+    simp only [List.length_cons, List.map_cons, List.flatten_cons, List.append_assoc, tcpSplitN]
+    have hnext : tcpNext (tcpWire (w.bytes P) ++ ((ws.map (fun w => tcpWire (w.bytes P))).flatten ++ rest)) =
+        some (w.bytes P, (ws.map (fun w => tcpWire (w.bytes P))).flatten ++ rest) := by
+      cases w with
+      | stun m key fp =>
+        exact (turn_tcp_stream_roundtrip P m key fp turnRxChannelLo [] _ hw.1 hw.2 (Nat.le_refl _) (by decide) (by simp)).1
+      | chan ch data => exact (tcpNext_channelData ch data _ hw.1 hw.2.1 hw.2.2).1
+    simp only [hnext, ih', Option.map_some]
+
+/-- **turn_tcp_recv_buffer**: `recv` with a buffer of `bufLen` bytes agrees with the unbounded stream reader on
+every message whose on-the-wire size fits the buffer, and answers `tooBig` (an error; the runner's 1500-byte
+buffer: a ChannelData message of more than 1496 bytes of data ends the TURN/TCP read loop) otherwise — it never
+reads or writes outside the buffer. -/
+theorem turn_tcp_recv_buffer (bufLen : Nat) (b0 b1 l0 l1 : UInt8) (rest : Bytes) :
+    let body := rd16 l0 l1
+    let onWire := if isChannelByte b0 then 4 + body + pad4 body else 20 + body
+    (onWire ≤ bufLen → ∀ m r, tcpNext (b0 :: b1 :: l0 :: l1 :: rest) = some (m, r) →
+        tcpRecv bufLen (b0 :: b1 :: l0 :: l1 :: rest) = .msg m r) ∧
+    (bufLen < onWire → tcpRecv bufLen (b0 :: b1 :: l0 :: l1 :: rest) = .tooBig) ∧
+    (∀ m r, tcpRecv bufLen (b0 :: b1 :: l0 :: l1 :: rest) = .msg m r → m.length ≤ bufLen) := by
+  have hpad : ∀ n : Nat, (n + 3) / 4 * 4 = n + pad4 n := by intro n; unfold pad4; omega
+  refine ⟨?_, ?_, ?_⟩
+  · intro hfit m r hn
+    simp only [tcpNext] at hn
+    simp only [tcpRecv]
+    by_cases hc : isChannelByte b0 = true
+    · simp only [hc, ↓reduceIte] at hn hfit ⊢
+      rw [hpad]
+      split at hn
+      · cases hn
+      · rename_i hlen
+        simp only [Option.some.injEq, Prod.mk.injEq] at hn
+        have h1 : ¬ (4 + (rd16 l0 l1 + pad4 (rd16 l0 l1)) > bufLen) := by omega
+        have h2 : ¬ (rest.length < 4 + (rd16 l0 l1 + pad4 (rd16 l0 l1)) - 4) := by omega
+        simp only [h1, h2, ↓reduceIte, Recv.msg.injEq]
+        refine ⟨?_, ?_⟩
+        · rw [← hn.1]; congr 5; omega
+        · rw [← hn.2]; congr 1; omega
+    · simp only [hc, Bool.false_eq_true, ↓reduceIte] at hn hfit ⊢
+      split at hn
+      · cases hn
+      · rename_i hlen
+        simp only [Option.some.injEq, Prod.mk.injEq] at hn
+        have h1 : ¬ (20 + rd16 l0 l1 > bufLen) := by omega
+        have h2 : ¬ (rest.length < 20 + rd16 l0 l1 - 4) := by omega
+        simp only [h1, h2, ↓reduceIte, Recv.msg.injEq]
+        refine ⟨?_, ?_⟩
+        · rw [← hn.1]; congr 5; omega
+        · rw [← hn.2]; congr 1; omega
+  · intro hbig
+    simp only [tcpRecv]
+    by_cases hc : isChannelByte b0 = true
+    · simp only [hc, ↓reduceIte] at hbig ⊢
+      rw [hpad]
+      have : 4 + (rd16 l0 l1 + pad4 (rd16 l0 l1)) > bufLen := by omega
+      simp [this]
+    · simp only [hc, Bool.false_eq_true, ↓reduceIte] at hbig ⊢
+      simp [hbig]
+  · intro m r hm
+    simp only [tcpRecv] at hm
+    by_cases hc : isChannelByte b0 = true
+    · simp only [hc, ↓reduceIte] at hm
+      rw [hpad] at hm
+      by_cases h1 : 4 + (rd16 l0 l1 + pad4 (rd16 l0 l1)) > bufLen
+      · simp [h1] at hm
+      · simp only [h1, ↓reduceIte] at hm
+        split at hm
+        · cases hm
+        · simp only [Recv.msg.injEq] at hm
+          rw [← hm.1]; simp only [List.length_cons, List.length_take]; omega
+    · simp only [hc, Bool.false_eq_true, ↓reduceIte] at hm
+      by_cases h1 : 20 + rd16 l0 l1 > bufLen
+      · simp [h1] at hm
+      · simp only [h1, ↓reduceIte] at hm
+        split at hm
+        · cases hm
+        · simp only [Recv.msg.injEq] at hm
+          rw [← hm.1]; simp only [List.length_cons, List.length_take]; omega
+
 /-- every channel number `create_channel_bind_packet` ever allocates stays in the TURN range (it starts
 at 0x4000, wraps from 0x7FFF to 0x4000), hence its ChannelData frames are always recognised. -/
 theorem channel_numbers_in_range (n : Nat) (h1 : turnRxChannelLo ≤ n) (h2 : n ≤ turnRxChannelHi) :
@@ -677,6 +779,15 @@ literal is accepted and the host keeps its brackets. -/
 theorem ice_server_uri_ipv6_literal_witness :
     IceUri.parse "stun:[2001:db8::1]".toList = .error .port ∧
     IceUri.parse "stun:[2001:db8::1]:3478".toList = .ok ⟨.stun, "[2001:db8::1]".toList, 3478, .udp⟩ := by
+  constructor <;> simp [IceUri.parse, IceUri.splitOnce, IceUri.splitQuery, IceUri.hostPort, IceUri.rsplitOnce, parseUInt, parseDigits,
+    digitVal, IceUri.defaultPort, IceUri.defaultTransport, IceUri.queryTransport, IceUri.finish, IceUri.containsSub]
+
+/-- RFC 7064 §3.1 requires a host (`ice_server_uri_parse` therefore assumes `host ≠ []`); the code does not:
+`stun:` and `turn:` parse to a server with the EMPTY host name (the failure surfaces only when the
+name is resolved). Recorded deviation, not repaired (the property statement does not mention URIs). -/
+theorem ice_server_uri_empty_host_witness :
+    IceUri.parse "stun:".toList = .ok ⟨.stun, [], 3478, .udp⟩ ∧
+    IceUri.parse "turn:".toList = .ok ⟨.turn, [], 3478, .udp⟩ := by
   constructor <;> simp [IceUri.parse, IceUri.splitOnce, IceUri.splitQuery, IceUri.hostPort, IceUri.rsplitOnce, parseUInt, parseDigits,
     digitVal, IceUri.defaultPort, IceUri.defaultTransport, IceUri.queryTransport, IceUri.finish, IceUri.containsSub]
 
